@@ -33,9 +33,9 @@ def verify(unit, text, tag, rlimit):
     d = f"{ROOT}/out/prune"
     os.makedirs(d, exist_ok=True)
     # the template must sit next to the others (includes are resolved against the verif root)
-    tpl = f"{d}/{unit}.{tag}.vc.rs"
+    tpl = f"{d}/{unit}_{tag}.vc.rs"
     open(tpl, "w").write(text)
-    gen = f"{d}/{unit}.{tag}.rs"
+    gen = f"{d}/{unit}_{tag}.rs"
     r = subprocess.run([TOOL, tpl, os.environ.get("VERIF_REPO", "/repo"), gen, gen + ".json", ROOT], stdout=subprocess.PIPE, stderr=subprocess.PIPE, text=True)
     if r.returncode != 0:
         return False, "extract: " + r.stderr[-200:]
